@@ -17,12 +17,11 @@ HexDigit(c) == IF c >= 48 /\ c <= 57 THEN c - 48             \* '0'..'9'
                ELSE IF c >= 65 /\ c <= 70 THEN c - 55        \* 'A'..'F'
                ELSE IF c >= 97 /\ c <= 102 THEN c - 87       \* 'a'..'f'
                ELSE -1
-\* s[from..] is a non-empty even number of hexadecimal digits
-IsHexPairs(s, from) == /\ Len(s) >= from + 1
-                       /\ (Len(s) - from + 1) % 2 = 0
-                       /\ \A k \in from..Len(s) : HexDigit(s[k]) >= 0
-PairsToBytes(s, from) == [k \in 1..((Len(s) - from + 1) \div 2) |->
-                             16 * HexDigit(s[from + 2 * k - 2]) + HexDigit(s[from + 2 * k - 1])]
+\* digit values of s[from..] (-1 for a character that is no hexadecimal digit)
+Digits(s, from) == [k \in 1..(Len(s) - from + 1) |-> HexDigit(s[from + k - 1])]
+\* a non-empty even number of hexadecimal digits
+AreHexPairs(d) == Len(d) >= 2 /\ Len(d) % 2 = 0 /\ \A k \in 1..Len(d) : d[k] >= 0
+DigitsToBytes(d) == [k \in 1..(Len(d) \div 2) |-> 16 * d[2 * k - 1] + d[2 * k]]
 UDigit(d) == IF d < 10 THEN 48 + d ELSE 55 + d
 LDigit(d) == IF d < 10 THEN 48 + d ELSE 87 + d
 \* the text of a byte sequence (upper: use 'A'..'F')
